@@ -17,6 +17,15 @@ pub struct Cfg {
     pub overrides: Vec<(String, u64)>,
     pub keyed: bool,
     pub phase: u64,
+    /// a second rule on the same resource (parameter 1 / key "k2", threshold 1e6: it never rejects)
+    /// whose parameter values are the same strings as the first rule's values
+    #[serde(default)]
+    pub companion: bool,
+    /// 0: rules loaded once. 1: a copy with every threshold + 1 is loaded first, 2: a copy with the
+    /// metric type switched to Concurrency is loaded first; no traffic in between, so the decisions
+    /// must be those of a single load
+    #[serde(default)]
+    pub retuned: u8,
 }
 
 #[derive(Clone, Debug)]
@@ -76,6 +85,46 @@ pub struct C06 {
     refills: u64,
 }
 
+fn other(v: &str) -> &'static str {
+    match v {
+        "A" => "B",
+        "B" => "C",
+        "C" => "D",
+        _ => "A",
+    }
+}
+fn companion_of(cfg: &Cfg, threshold: u64) -> Arc<hotspot::Rule> {
+    Arc::new(hotspot::Rule {
+        id: "h1".into(),
+        resource: RES.into(),
+        metric_type: hotspot::MetricType::QPS,
+        control_strategy: hotspot::ControlStrategy::Reject,
+        param_index: 1,
+        param_key: if cfg.keyed { "k2".into() } else { String::new() },
+        threshold,
+        burst_count: cfg.b,
+        duration_in_sec: cfg.d,
+        ..Default::default()
+    })
+}
+fn rule_set(cfg: &Cfg, bump: u64, concurrency: bool) -> Vec<Arc<hotspot::Rule>> {
+    let mut v = vec![rule_of(cfg, cfg.q + bump, &cfg.overrides)];
+    if cfg.companion {
+        v.push(companion_of(cfg, 1_000_000 + bump));
+    }
+    if concurrency {
+        v = v
+            .into_iter()
+            .map(|r| {
+                let mut r = (*r).clone();
+                r.metric_type = hotspot::MetricType::Concurrency;
+                Arc::new(r)
+            })
+            .collect();
+    }
+    v
+}
+
 fn rule_of(cfg: &Cfg, q: u64, overrides: &[(String, u64)]) -> Arc<hotspot::Rule> {
     Arc::new(hotspot::Rule {
         id: "h0".into(),
@@ -112,7 +161,16 @@ impl Subject for C06 {
             e.exit();
         }
         reset_world(T0_MS + self.cfg.phase);
-        hotspot::load_rules(vec![rule_of(&self.cfg, self.cfg.q, &self.cfg.overrides)]);
+        match self.cfg.retuned {
+            1 => {
+                hotspot::load_rules(rule_set(&self.cfg, 1, false));
+            }
+            2 => {
+                hotspot::load_rules(rule_set(&self.cfg, 0, true));
+            }
+            _ => {}
+        }
+        hotspot::load_rules(rule_set(&self.cfg, 0, false));
         self.buckets.clear();
         self.hist.clear();
         self.refills = 0;
@@ -147,7 +205,12 @@ impl Subject for C06 {
         let (args, att) = if self.cfg.keyed {
             let mut m: ParamsMap = HashMap::new();
             m.insert("k".into(), value.to_string());
+            if self.cfg.companion {
+                m.insert("k2".into(), other(value).to_string());
+            }
             (None, Some(m))
+        } else if self.cfg.companion {
+            (Some(vec![value.to_string(), other(value).to_string()]), None)
         } else {
             (Some(vec![value.to_string()]), None)
         };
@@ -243,7 +306,16 @@ pub fn configs(thorough: bool) -> Vec<Cfg> {
                         if !thorough && k % 5 != 0 {
                             continue;
                         }
-                        v.push(Cfg { q, b, d, overrides: overrides.clone(), keyed, phase: [0, 1, 499, 999][(k % 4) as usize] });
+                        let base = Cfg { q, b, d, overrides: overrides.clone(), keyed, phase: [0, 1, 499, 999][(k % 4) as usize], companion: false, retuned: 0 };
+                        v.push(base.clone());
+                        // variants: a companion rule sharing the value strings, and two-step loads
+                        let variant = if thorough { Some(k % 3) } else { Some((k / 5) % 3) };
+                        match variant {
+                            Some(0) => v.push(Cfg { companion: true, retuned: 1, ..base.clone() }),
+                            Some(1) => v.push(Cfg { companion: false, retuned: 2, ..base.clone() }),
+                            Some(_) => v.push(Cfg { companion: true, retuned: 0, ..base.clone() }),
+                            None => {}
+                        }
                     }
                 }
             }
@@ -255,5 +327,12 @@ pub fn configs(thorough: bool) -> Vec<Cfg> {
 pub fn run(o: &Opts, stats: &mut Stats) -> Option<usize> {
     let cfgs = configs(o.thorough);
     let thorough = o.thorough;
-    run_configs(o, stats, &cfgs, |c, _| C06::new(c), &move |_c: &Cfg| if thorough { vec![Pass { depth: 7, max_dev: 3 }] } else { vec![Pass { depth: 5, max_dev: 2 }] })
+    run_configs(o, stats, &cfgs, |c, _| C06::new(c), &move |c: &Cfg| {
+        let variant = c.companion || c.retuned != 0;
+        if thorough {
+            vec![Pass { depth: if variant { 6 } else { 7 }, max_dev: 3 }]
+        } else {
+            vec![Pass { depth: 5, max_dev: 2 }]
+        }
+    })
 }
